@@ -355,6 +355,9 @@ def rules(ctx):
     r5_shared_defaults(ctx)
     r6_no_inplace_on_model_values(ctx)
     r7_argument_views(ctx)
+    # an algorithm works on its own deep copy of the settings' parameters (nested dictionaries included): the settings object passed in is never modified (same rule as C11.R7)
+    from .c11 import r7_deepcopy
+    r7_deepcopy(ctx, rid="C13.R9")
     # 'the same call with the same seed gives the same answer, whatever was done earlier in the process': the per-subject jobs may run
     # in worker processes that outlive the call and are not reached by its seeding - nothing is drawn inside them (same rule as C07.R3)
     from .c07 import r3_job_effects
